@@ -105,7 +105,7 @@ func goodTraffic(r *mon.Rng, n int) []byte {
 	now := time.Now().Unix()
 	names := []string{"foo.bar", "servers.dc1.app1.cpu", "stats.timers.app1.requests.x", "abc.def", "collectd.localhost.x", "a.b.c", "prod.web.Err/s", "x.y;t=v", "unit=B.mtype=gauge.host=a"}
 	for i := 0; i < n; i++ {
-		fmt.Fprintf(&b, "%s%d %d %d\n", r.Pick(names), r.Intn(20), i, now-int64(r.Intn(100)))
+		fmt.Fprintf(&b, "%s%d %d %d\n", r.Pick(names), r.Intn(2000), i, now-int64(r.Intn(100)))
 	}
 	return b.Bytes()
 }
@@ -154,6 +154,12 @@ func pickleBatch(r *mon.Rng) []byte {
 		default:
 			b.Write(r.Bytes(r.Range(0, 300)))
 		}
+	}
+	if r.Chance(1, 3) {
+		// the connection ends inside a frame: header, then only the first k bytes of the payload
+		binary.Write(&b, binary.BigEndian, uint32(r.PickInt([]int{1, 2, 3, 5, len(valid), 200})))
+		cut := [][]byte{valid, []byte("(lp0\n(S'foo'\n"), []byte("]q\x00.")}[r.Intn(3)]
+		b.Write(cut[:r.Intn(4)])
 	}
 	return b.Bytes()
 }
@@ -253,9 +259,12 @@ func adminCmd(r *mon.Rng, st *state) string {
 		k := fmt.Sprintf("r%d", st.n)
 		st.n++
 		st.routes = append(st.routes, k)
-		typ := r.Pick([]string{"sendAllMatch", "sendFirstMatch", "consistentHashing"})
-		nd := r.Range(0, 3)
-		c := "addRoute " + typ + " " + k + " " + r.Pick([]string{"", "prefix=foo ", "regex=^a( ", "sub=e3 "})
+		typ := r.Pick([]string{"sendAllMatch", "sendFirstMatch", "consistentHashing", "consistentHashing"})
+		nd := r.Range(0, 4)
+		if typ == "consistentHashing" {
+			st.chRoutes = append(st.chRoutes, k)
+		}
+		c := "addRoute " + typ + " " + k + " " + r.Pick([]string{"", "", "prefix=foo ", "regex=^a( ", "sub=e3 "})
 		for i := 0; i < nd; i++ {
 			addr := fmt.Sprintf("127.0.0.1:%d", st.deadPort)
 			if typ == "consistentHashing" && r.Bool() {
@@ -332,6 +341,7 @@ func adminCmd(r *mon.Rng, st *state) string {
 type state struct {
 	n        int
 	routes   []string
+	chRoutes []string // consistentHashing routes (with how many destinations they were given)
 	deadPort int
 	schemas  string
 	aggconf  string
@@ -404,12 +414,15 @@ func genConfig(r *mon.Rng, dir string, p ports, st *state) string {
 		k := fmt.Sprintf("cfg%d", i)
 		st.routes = append(st.routes, k)
 		typ := r.Pick([]string{"sendAllMatch", "sendFirstMatch", "consistentHashing"})
+		if typ == "consistentHashing" {
+			st.chRoutes = append(st.chRoutes, k)
+		}
 		fmt.Fprintf(&b, "[[route]]\nkey = %s\ntype = %s\n", q(k), q(typ))
 		if r.Chance(1, 3) {
 			fmt.Fprintf(&b, "%s = %s\n", r.Pick([]string{"prefix", "sub", "regex", "notRegex"}), q(r.Pick([]string{"foo", "^servers", "abc"})))
 		}
 		b.WriteString("destinations = [\n")
-		nd := r.Range(1, 3)
+		nd := r.Range(1, 4)
 		if typ == "consistentHashing" && nd < 2 {
 			nd = 2
 		}
@@ -737,7 +750,13 @@ func runChild(res *mon.Result, bin string, idx int, base string) {
 			res.Count("pickle_batches", 1)
 		default: // HTTP admin: delete entries by index / key
 			var path string
-			switch r.Intn(5) {
+			sel := r.Intn(5)
+			if len(st.chRoutes) > 0 && r.Chance(1, 2) {
+				sel = 5
+			}
+			switch sel {
+			case 5: // remove one destination (not necessarily the last-listed one) of a consistent-hashing route
+				path = fmt.Sprintf("/routes/%s/destinations/%s", r.Pick(st.chRoutes), r.Pick([]string{"0", "0", "1", "2"}))
 			case 0:
 				rk := "nosuch"
 				if len(st.routes) > 0 {
@@ -758,7 +777,7 @@ func runChild(res *mon.Result, bin string, idx int, base string) {
 				path = "/routes/" + rk
 			}
 			paths := []string{path}
-			if strings.Contains(path, "/destinations/") && r.Chance(1, 2) {
+			if strings.Contains(path, "/destinations/") && r.Chance(1, 4) {
 				// remove every destination of that route, one by one (index 0 until nothing is left)
 				base := path[:strings.LastIndex(path, "/")]
 				paths = []string{base + "/0", base + "/0", base + "/0", base + "/0"}
@@ -777,8 +796,8 @@ func runChild(res *mon.Result, bin string, idx int, base string) {
 			res.Count("http_admin_requests", 1)
 		}
 		// ordinary traffic exercising whatever the table now contains
-		gt := goodTraffic(r, 40)
-		history = append(history, fmt.Sprintf("traffic: %d valid lines on plain tcp", 40))
+		gt := goodTraffic(r, 150)
+		history = append(history, fmt.Sprintf("traffic: %d valid lines on plain tcp", 150))
 		sendTCP(p.plain, gt, mon.NewRng(1, 1, 1))
 		time.Sleep(300 * time.Millisecond)
 		if !rl.alive() {
